@@ -5,7 +5,7 @@ import vlib
 from vlib import to_tangelo_gate, dump_tangelo_gate, dump_model_gate, ang_float, rand_ang, gspec
 
 CLAIM = {
- "text": "Proof (Lean 4): writers and readers of the IonQ JSON and ProjectQ command formats are modelled on abstract syntax with the name dictionaries regenerated from /repo; proved: read(write g) = g (CNOT = CX as the code's own == has it; the variational flag is not expressible) for EVERY gate the format can express - any targets, control lists and parameters; the ProjectQ dictionary is invertible on the names the reader accepts (kernel decision on the regenerated table); gates outside the dictionary are refused by the writer. Tie to the code: every record / command line the real writers emit is compared with the model's, the re-imported circuit is compared with the original (gates, qubits, parameters - exact float equality -, width), gates a format cannot express must raise; repr/eval of gates and the cirq operator conversion are checked by round trip on the real code (no model: eval and cirq are the implementation).",
+ "text": "Proof (Lean 4): writers and readers of the IonQ JSON and ProjectQ command formats are modelled on abstract syntax with the name dictionaries regenerated from /repo; proved: read(write g) = g (CNOT = CX as the code's own == has it; the variational flag is not expressible) for EVERY gate the format can express - any targets, control lists and parameters; the ProjectQ dictionary is invertible on the names the reader accepts (kernel decision on the regenerated table); gates outside the dictionary are refused by the writer; WHOLE CIRCUITS: for every circuit of expressible gates that satisfies the metadata invariant of C11 (every reachable circuit does), the written register ('qubits' / the Allocate lines) and the reader's reconstruction (Circuit(n_qubits) + gates / add_gate one by one) are modelled and proved to give back a circuit of the SAME WIDTH - idle qubits included - with the same gates (theorems ionq_circuit_roundtrip, projectq_circuit_roundtrip). Tie to the code: every record / command line the real writers emit is compared with the model's, the written register size and the re-imported width with the model's whole-circuit functions, the re-imported circuit is compared with the original (gates, qubits, parameters - exact float equality -, width), gates a format cannot express must raise; repr/eval of gates and the cirq operator conversion are checked by round trip on the real code (no model: eval and cirq are the implementation).",
  "note": "Trusted: Lean kernel + standard axioms, table extractor, Python float printing/parsing (float(str(x)) == x), the regular expressions of the ProjectQ reader (validated only by the correspondence), json module. OpenQASM / qiskit / braket writers are not installed: outside the quantifier here. Known finding: the ProjectQ reader drops Measure instructions.",
  "technique": "Lean 4 round-trip theorems over abstract syntax with regenerated dictionaries + record-level correspondence and real round trips"}
 
@@ -68,7 +68,7 @@ def ionq_case(ctx, gs, floats, fixed):
         err = None
     except ValueError:
         d, err = None, "ERR:value"
-    j = ctx.model.ask({"op": "export", "fmt": "ionq", "gates": gs})
+    j = ctx.model.ask({"op": "export", "fmt": "ionq", "gates": gs, "n": fixed})
     ctx.case(case, nontrivial=len(gs) >= 2, sample=len(gs) <= 3)
     ctx.count("ionq")
     model_refuses = any(r is None for r in j["records"])
@@ -101,6 +101,11 @@ def ionq_case(ctx, gs, floats, fixed):
     if rec_mismatch:
         ctx.mismatch(rec_mismatch, case)
         return False
+    # whole circuit: the register the writer records and the width the reader rebuilds (model: ionqWriteCirc / ionqReadCirc)
+    if j.get("qubits") != d["qubits"] or j.get("back_width") != c2.width:
+        ctx.mismatch(f"ionq whole-circuit model: 'qubits' {d['qubits']} vs model {j.get('qubits')}, re-imported width {c2.width} vs model {j.get('back_width')}", case)
+        return False
+    ctx.count("ionq:whole-circuit")
     mback = [dump_model_gate(g) for g in j["back"]]
     for i in floats:
         mback[i]["p"] = floats[i]
@@ -132,7 +137,7 @@ def pq_case(ctx, gs, floats, fixed):
         err = None
     except ValueError:
         text, err = None, "ERR:value"
-    j = ctx.model.ask({"op": "export", "fmt": "projectq", "gates": gs})
+    j = ctx.model.ask({"op": "export", "fmt": "projectq", "gates": gs, "n": fixed})
     ctx.case(case, nontrivial=len(gs) >= 2, sample=len(gs) <= 3)
     ctx.count("projectq")
     model_refuses = any(r is None for r in j["records"])
@@ -163,6 +168,11 @@ def pq_case(ctx, gs, floats, fixed):
         ctx.violation(f"re-importing the ProjectQ text the library itself wrote (width {c.width}, {len(orig)} gates) raises {vlib.err_name(e)}: {str(e)[:100]}", case)
         return False
     back = [dump_tangelo_gate(g) for g in c2]
+    n_alloc = len(re.findall(r"Allocate \| Qureg\[\d+\]", text))
+    if j.get("qubits") != n_alloc or j.get("back_width") != c2.width:
+        ctx.mismatch(f"projectq whole-circuit model: {n_alloc} Allocate lines vs model {j.get('qubits')}, re-imported width {c2.width} vs model {j.get('back_width')}", case)
+        return False
+    ctx.count("projectq:whole-circuit")
     has_meas = any(g["n"] == "MEASURE" for g in gs)
     if has_meas:
         if len(back) != len(orig):
